@@ -31,7 +31,7 @@ from hypothesis import strategies as st
 
 from vlib import ehframe as EH
 from vlib import elf as E
-from vlib import tools
+from vlib import slow, tools
 from vlib.core import Check, Discard, Inconclusive, Violation
 from vlib.elf import Elf
 
@@ -306,7 +306,7 @@ class C10(Check):
         objs = []
         order = list(range(nobj))
         for obj in order:
-            tools.asm("".join(srcs[obj]), f"o{obj}.o", cwd=d)
+            slow.asm("".join(srcs[obj]), f"o{obj}.o", cwd=d)
             objs.append(f"o{obj}.o")
         if case["order"]:
             objs = [objs[0]] + objs[1:][::-1]
@@ -400,7 +400,7 @@ class C10(Check):
         res = {}
         for who in ("ld", "lld", "wild"):
             out = f"out.{who}"
-            r = tools.link(who, self.asm_link_args(case, who, objs, out), cwd=d)
+            r = slow.link(who, self.asm_link_args(case, who, objs, out), cwd=d)
             if who == "wild":
                 if r.timed_out:
                     raise Inconclusive("wild timed out")
@@ -520,7 +520,7 @@ class C10(Check):
         flags.append({"pie": "-fPIE", "no-pie": "-fno-pie", "static": "-fno-pie", "shlib": "-fPIC"}[mode])
         objs = []
         for t in range(ntu):
-            tools.cc("".join(tus[t]), f"t{t}.o", flags=flags, cwd=d, compiler="g++", lang="c++")
+            slow.cc("".join(tus[t]), f"t{t}.o", flags=flags, cwd=d, compiler="g++", lang="c++")
             objs.append(f"t{t}.o")
         return funcs, objs
 
@@ -534,13 +534,13 @@ class C10(Check):
         exe = f"prog.{who}"
         if mode == "shlib":
             lib = f"libv_{who}.so"
-            r = tools.cc_link(who, ["-shared", "-o", lib, objs[-1]] + extra, cwd=d, compiler="g++")
+            r = tools.cc_link(who, ["-shared", "-o", lib, objs[-1]] + extra, cwd=d, compiler="g++", timeout=400)
             if r.rc != 0:
                 return r, exe
-            r = tools.cc_link(who, ["-o", exe] + objs[:-1] + [lib, f"-Wl,-rpath,{d}"] + extra, cwd=d, compiler="g++")
+            r = tools.cc_link(who, ["-o", exe] + objs[:-1] + [lib, f"-Wl,-rpath,{d}"] + extra, cwd=d, compiler="g++", timeout=400)
             return r, exe
         m = {"pie": ["-pie"], "no-pie": ["-no-pie"], "static": ["-static", "-no-pie"]}[mode]
-        r = tools.cc_link(who, m + ["-o", exe] + objs + extra, cwd=d, compiler="g++")
+        r = tools.cc_link(who, m + ["-o", exe] + objs + extra, cwd=d, compiler="g++", timeout=400)
         return r, exe
 
     def run_cxx(self, case, ctx):
@@ -549,13 +549,17 @@ class C10(Check):
         outs = {}
         for who in ("ld", "wild"):
             r, exe = self.cxx_link(case, who, objs, d)
-            if r.rc != 0 or r.timed_out:
+            if r.timed_out:
+                raise Inconclusive(f"g++ link with {who} did not finish within 400 s")
+            if r.rc != 0:
                 if who == "ld":
                     raise Discard("g++/GNU ld rejects the program: " + r.err.strip().split("\n")[-1][:60])
                 if r.rc < 0 or "panicked at" in r.err:
                     raise Violation("wild-crash", f"wild crashed linking C++: {r.err[-300:]}")
                 raise Violation("wild-rejects-valid-link", f"GNU ld links the C++ program, wild fails: {r.err[-400:]}")
-            run = tools.run_exe(f"{d}/{exe}", cwd=d, timeout=20)
+            run = tools.run_exe(f"{d}/{exe}", cwd=d, timeout=120)
+            if run.timed_out:
+                raise Inconclusive(f"program linked by {who} did not finish within 120 s (machine load?)")
             outs[who] = (run.rc, run.out, run.err[-200:])
             files = [exe] + ([f"libv_{who}.so"] if case["mode"] == "shlib" else [])
             parsed = []
